@@ -219,6 +219,14 @@ class RejectMachine(Machine):
                 ops.append(["release", rng.choice(names)])
             else:
                 ops.append(["read", rng.choice(FIT_READS)])
+        if t != "unbinned":
+            # every history ends with a valid uncertainty change followed by reads: a rejected call anywhere before it must not have cut the fit
+            # off from its containers (the total uncertainty is read even where the cost function does not use it, e.g. Poisson likelihoods)
+            op = fitlib.gen_source(rng, spec, nsrc, force={"kind": "simple", "axis": "y" if t == "xy" else None, "ref": "data", "rel": False})
+            op[1]["name"] = "s_late"
+            op[1]["corr"] = 0.0
+            ops.append(op)
+            ops.append(["read", "total_error"])
         ops.append(["read", "cost_function_value"])
         ops.append(["read", "result_dict"])
         if allow_fit and sw.random() < 0.4:
